@@ -43,7 +43,7 @@ Inductive backend := Bolt | Mem.
 Definition beacon := (Z * Z)%type.            (* round, content token (stands for the signature bytes) *)
 
 Inductive sjob := SJ (b : beacon) | SJClose.
-Inductive serr := SErrNoBeacon | SErrSend | SErrReplaced.
+Inductive serr := SErrNoBeacon | SErrSend | SErrReplaced | SErrCanceled.
 
 Inductive phase :=
 | PScan (snap : list beacon) (pos : nat)   (* inside the cursor loop, Send of the beacon at [pos] in progress;
@@ -123,7 +123,11 @@ Inductive sev :=
                                    the commit of the wrapped store and the dispatch *)
 | SStart (cid from : Z)
 | SAck (k : Z) (ok : bool)
-| SRegister (k : Z).
+| SRegister (k : Z)
+| SRegisterCancel (k : Z).      (* AddCallback, then the stream context is cancelled (the client is gone)
+                                   before the catch-up: store.Last / store.Get (bolt) or send return the
+                                   context's error, or the final select sees ctx.Done(): in every case
+                                   SyncChain calls RemoveCallback(id) and returns that error; nothing is sent *)
 
 (* callbackStore.Put: the wrapped store commits the beacon, then it is handed to every registered
    callback. The dispatch does not look at the context: a beacon that is in the store has been
@@ -209,6 +213,23 @@ Definition ss_step (bk : backend) (st : sst) (e : sev) : sst :=
           | _ => st
           end
       end
+  | SRegisterCancel kz =>
+      let k := Z.to_nat kz in
+      match nth_error (streams st) k with
+      | None => st
+      | Some s =>
+          match s_phase s with
+          | PWaitReg =>
+              (* AddCallback still replaces a callback registered under the same id *)
+              let strs := match rget (s_cid s) (reg st) with
+                          | Some j => match nth_error (streams st) j with
+                                      | Some o => supd j (on_close o) (streams st)
+                                      | None => streams st end
+                          | None => streams st end in
+              mkSS (store st) (supd k (set_phase s (PDone SErrCanceled)) strs) (rdel (s_cid s) (reg st))
+          | _ => st
+          end
+      end
   end.
 
 Fixpoint ss_run (bk : backend) (st : sst) (es : list sev) : sst :=
@@ -217,6 +238,16 @@ Fixpoint ss_run (bk : backend) (st : sst) (es : list sev) : sst :=
 (* error class a stream ended with, if it ended *)
 Definition s_error (s : stream) : option serr :=
   match s_phase s with PDone e => Some e | _ => None end.
+
+(* the previous-signature field of the stored form of a beacon, as a content token (-1 = empty): on
+   the chained scheme the signature of the previous round; on unchained schemes (and when the
+   beacons are put without one) empty: schemeStore.Put clears the field on the beacon it is handed
+   before the write, and the callback store hands that same object to the callbacks. A stream sends
+   beacons in their stored form. *)
+Definition stored_prev (chained : bool) (sto : list beacon) (b : beacon) : Z :=
+  if chained && (0 <? fst b) then
+    match nth_error sto (Z.to_nat (fst b - 1)) with Some p => snd p | None => -1 end
+  else -1.
 
 Fixpoint is_prefix (a b : list beacon) : bool :=
   match a, b with
